@@ -3,6 +3,7 @@
 
 use crate::prng::Rng;
 use crate::val::Val;
+#[cfg(feature = "bit-vec")]
 use bitvec::{order::BitOrder, store::BitStore, vec::BitVec};
 use scale::Compact;
 use std::borrow::Cow;
@@ -438,6 +439,7 @@ impl<T: Model, const N: usize> Model for [T; N] {
     }
 }
 
+#[cfg(feature = "bit-vec")]
 impl<T: BitStore, O: BitOrder> Sample for BitVec<T, O> {
     fn sample(r: &mut Rng, _d: u32) -> Self {
         let w = core::mem::size_of::<T>() * 8;
@@ -457,6 +459,7 @@ impl<T: BitStore, O: BitOrder> Sample for BitVec<T, O> {
         v
     }
 }
+#[cfg(feature = "bit-vec")]
 impl<T: BitStore, O: BitOrder> Model for BitVec<T, O> {
     fn model(&self) -> Val {
         Val::Bits(self.iter().map(|b| *b).collect())
